@@ -38,7 +38,18 @@ PRELUDE = """pub struct Opaque;
 #[derive(TS)] pub struct Mid1 { #[ts(inline)] pub inner: Inner, pub m: i32 }
 #[derive(TS)] pub struct Mid2 { #[ts(flatten)] pub inner: Inner, pub m: i32 }
 #[derive(TS)] pub struct MidFlat { pub x: i32, pub y: Option<String>, pub m: i32 }
+#[derive(TS)] #[ts(tag = "k")] pub enum Two { A { a: i32 }, B { b: String } }
+#[derive(TS)] #[ts(untagged)] pub enum One1 { Only(#[ts(inline)] TagE) }
+#[derive(TS)] #[ts(untagged)] pub enum One2 { Only { #[ts(flatten)] c: Two } }
+#[derive(TS)] pub enum One3 { #[ts(untagged)] Only(#[ts(inline)] Two), #[ts(skip)] Other }
+#[derive(TS)] #[ts(untagged)] pub enum One4 { #[ts(type = "{ a: string } | { b: number }")] Only(i32) }
+#[derive(TS)] pub enum One5 { Only { a: i32 } }
+#[derive(TS)] #[ts(tag = "k", content = "c")] pub enum One6 { Only(#[ts(inline)] Two) }
+#[derive(TS)] pub struct OnlyTail { pub tail: String }
 """
+# object-like enums: flattening one denotes  parent & enum  ("the object obtained by merging the flattened
+# type's properties into the parent", alternative by alternative)
+FLAT_ENUMS = ["TagE", "Two", "One1", "One2", "One3", "One4", "One5", "One6", "Box<Two>"]
 
 
 def pres_units():
@@ -69,6 +80,11 @@ def pres_units():
     for t, fields in FLAT.items():
         pairs.append(("flatten", t, unit("pub struct @ { #[ts(flatten)] pub f: %s, pub tail: String }" % t), unit("pub struct @ { %s, pub tail: String }" % fields)))
         pairs.append(("flatten-only", t, unit("pub struct @ { #[ts(flatten)] pub f: %s }" % t), unit("pub struct @ { %s }" % fields)))
+    for k, t in enumerate(FLAT_ENUMS):
+        units.append(corpus.Unit("XE%d" % k, "pub type XE%d = %s;" % (k, t), [], serde=False))
+        pairs.append(("flatten-enum", t, unit("pub struct @ { #[ts(flatten)] pub f: %s, pub tail: String }" % t), ("inter", "XOnlyTail", "XE%d" % k)))
+        pairs.append(("flatten-enum-only", t, unit("pub struct @ { #[ts(flatten)] pub f: %s }" % t), ("inter", None, "XE%d" % k)))
+    units.append(corpus.Unit("XOnlyTail", "pub type XOnlyTail = OnlyTail;", [], serde=False))
     # inlined inside flattened, flattened inside inlined
     for n_ in ("Mid1", "Mid2", "MidFlat"):
         units.append(corpus.Unit("X" + n_, "pub type X%s = %s;" % (n_, n_), [], serde=False))
@@ -114,6 +130,19 @@ def run(tier):
     pc = corpus.Corpus("pres", bindlib.helper_units() + punits, extra_prelude=PRELUDE)
     pobs = pc.observe()
     for fam, label, a, b in pairs:
+        if isinstance(b, tuple):
+            # the expected type is put together from real parts: inline() of the parent without the field, inline() of the flattened type
+            if a.name in pc.rejected:
+                v.fail({"prop": PROP, "family": fam, "case": label, "tag": "does_not_compile"}, {"a": a.src, "error": pc.rejected.get(a.name)})
+                continue
+            parts = [pobs[n]["info"]["inline"] for n in b[1:] if n]
+            if any("ok" not in x for x in parts):
+                raise ToolError("inline() of a part of %s: %s" % (label, parts))
+            ts_ = [tsparse.strip(tsparse.parse_type(x["ok"])) for x in parts]
+            body = ts_[0] if len(ts_) == 1 else {"k": "inter", "ts": ts_}
+            groups.append((fam, label, pobs[a.name]["info"], {"record": {"name": "Expected", "params": [], "body": body}, "decl": {"ok": " & ".join("(%s)" % x["ok"] for x in parts)}},
+                           a.src, "intersection of the real inline() of the parts"))
+            continue
         if a.name in pc.rejected or b.name in pc.rejected:
             v.fail({"prop": PROP, "family": fam, "case": label, "tag": "does_not_compile"},
                    {"a": a.src, "b": b.src, "error": pc.rejected.get(a.name) or pc.rejected.get(b.name)})
@@ -121,7 +150,7 @@ def run(tier):
         groups.append((fam, label, pobs[a.name]["info"], pobs[b.name]["info"], a.src, b.src))
     # extra declarations the pres corpus refers to
     env2 = dict(env)
-    for n in ("XMid1", "XMid2", "XMidFlat"):
+    for n in ("XMid1", "XMid2", "XMidFlat", "XE1"):
         if n in pobs and "ok" in pobs[n]["info"]["decl"]:
             d = bindlib.decl_record(pobs[n]["info"]["decl"]["ok"])
             env2[d["name"]] = {"params": d["params"], "body": d["body"]}
@@ -137,7 +166,7 @@ def run(tier):
                    {"a": sa, "b": sb, "decl_a": da, "decl_b": db, "panicking_side": which})
             continue
         try:
-            ra, rb = bindlib.decl_record(da["ok"]), bindlib.decl_record(db["ok"])
+            ra, rb = bindlib.decl_record(da["ok"]), ib["record"] if "record" in ib else bindlib.decl_record(db["ok"])
         except tsparse.TsSyntaxError as e:
             v.fail({"prop": PROP, "family": fam, "case": label, "tag": "does_not_parse"}, {"a": da["ok"], "b": db["ok"], "error": str(e)})
             continue
